@@ -32,8 +32,29 @@ def extract(repo):
     return {'items': items, 'notes': ['struct FileSet and %d methods verbatim (R5 only)' % len(FNS)]}
 
 
+def assumed_contracts():
+    """the ensures clauses that contracts/vfs_prelude.rs ASSUMES for its FileSet stand-in, textually: they replace the ensures of
+    contracts/fileset.spec, so that what this unit proves is exactly what the Vfs unit assumes"""
+    verif = os.path.dirname(os.path.dirname(os.path.abspath(__file__)))
+    text = open(os.path.join(verif, 'contracts/vfs_prelude.rs')).read()
+    i = text.find('impl FileSet {')
+    if i < 0:
+        raise AnchorLost('contracts/vfs_prelude.rs: no FileSet stand-in')
+    block = text[i:text.find('\n}\n', i)]
+    res = {}
+    for mm in re.finditer(r'pub fn (\w+)\([^)]*\)(?: -> \(r: [^)]*\))?\s+ensures (.*?)\s*\{ unimplemented!\(\) \}', block, re.S):
+        res['FileSet::' + mm.group(1)] = ' '.join(mm.group(2).split())
+    return res
+
+
 def assemble(ex, prelude, fns_spec, loops_spec):
     import weave
+    assumed = assumed_contracts()
+    fns_spec = {k: dict(v) for k, v in fns_spec.items()}
+    for k in fns_spec:
+        if k not in assumed:
+            raise AnchorLost('contracts/vfs_prelude.rs assumes no contract for %s' % k)
+        fns_spec[k]['ensures'] = assumed[k]
     used_fn, used_loop, defaulted = set(), set(), []
     head = 'use vstd::prelude::*;\nuse std::collections::HashMap;\nverus! {\n' + prelude + '\n' + ex['items'][0].text + '\n'
     text, linemap = head, []
@@ -51,7 +72,7 @@ def assemble(ex, prelude, fns_spec, loops_spec):
     for nm in fns_spec:
         if nm not in used_fn:
             raise AnchorLost('@fn %s: no such function in the working tree' % nm)
-    return text, linemap, {'contracted': sorted(used_fn), 'loops_contracted': []}
+    return text, linemap, {'contracted': sorted(used_fn), 'loops_contracted': [], 'bridged_contracts': ['vfs:' + k for k in sorted(assumed)]}
 
 
 # the abstract view the Vfs unit's stand-in uses: the two maps
